@@ -278,3 +278,20 @@ def c20(run, replay):
                        "from TLC-simulated behaviours of ReaderParam.tla; distinct = distinct scenario descriptions")
     for t in (ta[:1] + [x for x in tb if x.get("ev") == "reset"][:2] + [x for x in tb if x.get("ev") == "readend"][:2]):
         run.sample(t)
+
+
+# --------------------------------------------------------------------------------------------- C01
+@check("C01")
+def c01(run, replay):
+    run.assumptions += [
+        "values are sampled (seeded) from a type palette: int/uint extremes, finite floats incl. -0 / 1e308 / denormals, strings with HTML-significant, "
+        "control and multi-byte characters, []byte, nil vs empty slices and maps, nil pointers, nested and embedded structs, json.RawMessage, custom "
+        "(Un)Marshalers incl. a tri-state null-sensitive type, and a custom param encoder/decoder pair",
+        "the JSON round trip that defines the expected value is computed with encoding/json directly (trusted)",
+        "calls are issued one at a time here (concurrency is C02's subject)",
+    ]
+    vp.table_check(
+        run, "SignatureMC", "SignatureTrace", "c01",
+        rule="all 1050 rows of Signature.tla (0-3 params x ctx x raw params x return shape x handler outcome x transport x formatter), "
+             "each with several seeded value tuples; distinct = distinct abstract rows",
+        sig=lambda t: "row %s" % json.dumps(t["row"], sort_keys=True), harness_timeout=1800, trace_timeout=1800)
